@@ -191,3 +191,32 @@ def returns(func_node):
 
 def text(node):
     return unparse(node)
+
+
+class _Inliner(ast.NodeTransformer):
+    def __init__(self, fn_node, depth=0):
+        self.fn = fn_node
+        self.depth = depth
+
+    def visit_Name(self, node):
+        if not isinstance(node.ctx, ast.Load) or self.depth > 6:
+            return node
+        if node.id in params(self.fn):
+            return node
+        vals = local_assignments(self.fn, node.id)
+        if len(vals) == 1 and vals[0] is not None:
+            import copy
+            sub = copy.deepcopy(vals[0])
+            return _Inliner(self.fn, self.depth + 1).visit(sub)
+        return node
+
+
+def inline(fn_node, expr):
+    """Text of `expr` with every local that is assigned exactly once
+    replaced by its defining expression (recursively). Makes comparisons
+    robust against extracting/renaming locals."""
+    import copy
+    if expr is None:
+        return None
+    e = _Inliner(fn_node).visit(copy.deepcopy(expr))
+    return unparse(e)
